@@ -272,11 +272,13 @@ func genC08(g *Gen) {
 		math.MaxInt32, math.MinInt32, math.MaxInt64, math.MinInt64, math.MinInt64 + 1, math.MaxInt64 - 1}
 	for !g.w.full() {
 		var x d128.Decimal
-		switch g.r.Intn(6) {
+		switch g.r.Intn(7) {
 		case 0:
 			x = randAny(g.r)
 		case 1:
 			x = mk(g.r.Intn(2) == 0, g.fullCoef(), randExp(g.r))
+		case 6:
+			x = g.topValue()
 		default:
 			x = randFinite(g.r)
 		}
@@ -286,7 +288,9 @@ func genC08(g *Gen) {
 		if c != nil && c.Sign() != 0 {
 			nd = len(c.String())
 		}
-		switch g.r.Intn(8) {
+		switch g.r.Intn(9) {
+		case 8: // quanta just above the largest exponent
+			dp = -(eMax + 1 + g.r.Intn(36))
 		case 0:
 			dp = dpEdges[g.r.Intn(len(dpEdges))]
 		case 1:
